@@ -107,6 +107,15 @@ func runMyClient(conn net.Conn, script []Stmt, results []StmtResult) (err error)
 		gerr := guard(fmt.Sprintf("statement %d", i), func() error {
 			var rows *sql.Rows
 			var qerr error
+			for _, pre := range st.Pre {
+				if _, perr := c.ExecContext(ctx, pre); perr != nil {
+					if fatal := recordMyErr(res, perr); fatal {
+						return fmt.Errorf("statement %d (%q): %w", i, pre, perr)
+					}
+					res.Ready = true
+					return nil
+				}
+			}
 			if st.Extended {
 				ps, perr := c.PrepareContext(ctx, st.SQL)
 				if perr != nil {
